@@ -85,7 +85,7 @@ def concrete_main(path):
     for job in spec["jobs"]:
         c = cases[job["case"]]
         loader.reset_stubs(g)
-        P = ConcreteProvider(job.get("inputs"), job.get("seed", 0), record_values=job.get("values", False), tight=job.get("tight", False))
+        P = ConcreteProvider(job.get("inputs"), job.get("seed", 0), record_values=job.get("values", False), tight=job.get("tight", False), special=job.get("special", False))
         err = None
         try:
             import warnings
@@ -456,7 +456,7 @@ def finish(mod, modname, prop, args, seed, cases, results, t0, extra=()):
                 cands.append((rec["name"], c))
         cjobs = [{"case": cname, "inputs": c, "seed": 0, "tight": True} for _n, c in cands[:60]]
         nsearch = case.search
-        cjobs += [{"case": cname, "inputs": None, "seed": seed * 100000 + 7919 + i} for i in range(nsearch)]
+        cjobs += [{"case": cname, "inputs": None, "seed": seed * 100000 + 7919 + i, "special": bool(i % 2)} for i in range(nsearch)]
         try:
             cres = run_concrete(modname, args.tier, cjobs)
         except Exception as e:  # noqa
